@@ -441,6 +441,68 @@ def wl_full_tables(ctx, rng, case):
     run_guarded(ctx, case, body)
 
 
+def wl_big_full_tables(ctx, rng, case):
+    """completely full tables of 256 .. 2048 slots (slot indices beyond one byte and beyond CPython's shared small integers): one cluster that
+    wraps the whole table, started at a low or a high slot, or two clusters; removal of the element at the cluster start and of others"""
+    import probables as P
+    from probables.exceptions import QuotientFilterError
+
+    q = [8, 9, 9, 10, 11, 9][case.index % 6]
+    seed = rng.getrandbits(32)
+    case.desc = {"quotient": q, "kind": "completely full big table"}
+    ctx.observe("quotients", q)
+
+    def body(mode):
+        import random
+
+        r2 = random.Random(seed)
+        g = Guard(ctx, mode)
+        n = 1 << q
+        style = r2.choice(["single_cluster_high_start", "single_cluster_high_start", "single_cluster_low_start", "two_clusters"])
+        counts = {}
+        if style == "two_clusters":
+            a = r2.randrange(n)
+            counts = {a: n // 2, (a + n // 2) % n: n - n // 2}
+        else:
+            start = r2.randrange(257, n) if style.endswith("high_start") and n > 257 else r2.randrange(0, min(n, 200))
+            counts = {start: n}
+        S = set()
+        for quot, c in counts.items():
+            for j in range(c):
+                S.add(mk(q, quot, j * 3 + 1))
+        f = P.QuotientFilter(quotient=q, auto_expand=False)
+        order = sorted(S)
+        r2.shuffle(order)
+        for h in order:
+            g(line_limit(n, 4), f.add_alt, h)
+        case.op("filled", style, {str(k): v for k, v in counts.items()})
+        ctx.check(f.elements_added == n and sorted(g(line_limit(n, 8), f.get_hashes)) == sorted(S), "a completely filled big table does not hold exactly the hashes given to it")
+        try:
+            g(line_limit(n), f.add_alt, mk(q, 0, 2))
+            ctx.fail("add on a completely full table was accepted")
+        except QuotientFilterError:
+            ctx.count("refused_adds")
+        firsts = [mk(q, quot, 1) for quot in counts]  # the element stored at each cluster start
+        for h in firsts + r2.sample(sorted(S), 2):
+            f3 = copy.deepcopy(f)
+            S3 = set(S)
+            do_remove(ctx, g, f3, S3, h, "")
+            ctx.counters["oracle_evaluations"] += 1
+            got = sorted(g(line_limit(n, 8), f3.get_hashes))
+            if got != sorted(S3) or f3.elements_added != len(S3):
+                ctx.fail(f"after remove_alt on a completely full table of {n} slots ({style}) the stored hashes are not the set minus the removed one",
+                         removed=h, missing=sorted(S3 - set(got))[:5], extra=sorted(set(got) - S3)[:5], elements_added=f3.elements_added)
+            ctx.check(not g(line_limit(n), f3.check_alt, h), "a removed hash is still reported", removed=h)
+            for h2 in r2.sample(sorted(S3), 12):
+                ctx.check(g(line_limit(n), f3.check_alt, h2), f"a hash that was added and not removed is reported absent after a removal on a full table of {n} slots", hash=h2)
+            g(line_limit(n), f3.add_alt, h)
+            ctx.check(g(line_limit(n), f3.check_alt, h) and f3.elements_added == n, "re-adding into the freed slot failed")
+            ctx.count("removals_on_big_full_tables")
+        case.nontrivial = True
+
+    run_guarded(ctx, case, body)
+
+
 def wl_wide_quotient(ctx, rng, case):
     """quotients around the remainder-width boundaries (remainder 16 / 17 bits: the slot array changes its element type), a few hundred hashes"""
     import probables as P
@@ -512,6 +574,7 @@ PROP = Prop(
         Workload("full_tables", wl_full_tables, quick=80, thorough=3000),
         Workload("resize_merge", wl_resize_merge, quick=200, thorough=10000),
         Workload("wide_quotient", wl_wide_quotient, quick=5, thorough=100),
+        Workload("big_full_tables", wl_big_full_tables, quick=12, thorough=240),
         Workload("history", wl_history, quick=500, thorough=40000),
         Workload("exhaustive_q3", wl_exhaustive_q3, quick=256, thorough=256, exhaustive=True),
     ],
